@@ -4,7 +4,7 @@ sys.path.insert(0, "/verif")
 
 CHECKS = {
  "C01": ("translation_validation", "symbolic execution (symx+z3) of interpreter vs generated module on a generated grammar family (all inputs up to a length bound) and on the bundled grammars with symbolic windows",
-         "Family F1 = expression kinds (114) x nesting contexts (25) x trivia configurations (16), plus the nested stack family: quick decides a pairwise covering (~8 100 grammars), thorough the full product (~42 000; the trivia-free part one character deeper) plus 400 seeded compositions. For every start rule, every input of length <= 4 (quick) / 4-5 (thorough) over the whole Unicode code space and listed start positions: Parser.parse and exec(Parser.generate()).parse return the same tree or the same furthest-failure position, with and without the optimizer; generate() is deterministic and its output compiles. Also the repository's 15 grammars on its own test inputs with 1-2 symbolic characters replaced / inserted. Bounded, not a proof: longer inputs and grammars outside the family are outside the claim.", "6 C01"),
+         "Family F1 = expression kinds (116) x nesting contexts (25) x trivia configurations (18), plus the nested stack family: quick decides a pairwise covering (~8 300 grammars), thorough the full product (~47 000; the trivia-free part one character deeper) plus 400 seeded compositions. For every start rule, every input of length <= 4 (quick) / 4-5 (thorough) over the whole Unicode code space and listed start positions: Parser.parse and exec(Parser.generate()).parse return the same tree or the same furthest-failure position, with and without the optimizer; generate() is deterministic and its output compiles. Also the repository's 15 grammars on its own test inputs with 1-2 symbolic characters replaced / inserted. Bounded, not a proof: longer inputs and grammars outside the family are outside the claim.", "6 C01"),
  "C02": ("translation_validation", "symbolic execution (symx+z3): optimizer=None vs default pipeline, each single pass, pass permutations / repetitions / seeded sequences; interpreter and generated",
          "Same family, bundled grammars and bounds as C01; the unoptimized parser is compared per joint path with the default pipeline, each exported pass alone, the reversed pipeline, the pipeline twice and other orders (thorough: seeded sequences of length 2-6), interpreted and generated. The regex model exposes OptimizedChoice's alternation order, flags and case folding to the solver (case-insensitive literals on every code point).", "6 C02"),
  "C03": ("model_checking", "bounded symbolic execution of all four modes against an independent reference PEG semantics (refpeg)",
